@@ -102,7 +102,16 @@ pub open spec fn tables_ok() -> bool { forall|c: Gc<ObjClass>, k: int| has_metho
 // what a call made by these functions was made on
 pub enum Callee { Closure(Gc<ObjClosure>), Native(Gc<ObjNative>), AnyValue(Value) }
 
+// class_store.rs is_native_class: the built-in classes whose instances are native objects / values, not ObjInstances
+pub uninterp spec fn native_class(c: Gc<ObjClass>) -> bool;
+#[verifier::external_body]
+pub struct ClassStore { _p: u8 }
+impl ClassStore {
+    #[verifier::external_body]
+    fn is_native_class(&self, class: Gc<ObjClass>) -> (r: bool) ensures r == native_class(class) { unimplemented!() }
+}
 pub struct Vm {
+    pub class_store: ClassStore,
     pub working_class_def: Option<ClassDef>,
     pub ghost stack: Seq<Value>,
     pub ghost insts: Map<int, ObjInstance>,
@@ -239,7 +248,8 @@ impl Vm {
     //@  subst "for (name, method) in &superclass.methods { self.working_class_def .as_mut() .unwrap() .class .methods .insert(*name, *method); }" => "self.working_class_def.as_mut().unwrap().class.methods.insert_all_from(&superclass.methods);"
     //@  requires old(self).stack.len() >= 2, old(self).working_class_def is Some
     //@  requires old(self).working_class_def->0.class.methods.view =~= Map::<int, Value>::empty()   // Inherit directly follows DeclareClass (class_declaration)
-    //@  ensures @inherited_methods_are_those_of_the_declared_superclass old(self).stack[old(self).stack.len() - 2] is ObjClass ==> ({ let sup = old(self).stack[old(self).stack.len() - 2]->ObjClass_0; let t0 = old(self).working_class_def->0.class.methods.view; let t1 = final(self).working_class_def->0.class.methods.view; r is Ok && final(self).working_class_def is Some && final(self).working_class_def->0.class.superclass == Some(sup) && t1 =~= sup.obj().methods.view && final(self).stack == old(self).stack.drop_last() })
+    //@  ensures @native_class_cannot_be_derived_from (old(self).stack[old(self).stack.len() - 2] is ObjClass && native_class(old(self).stack[old(self).stack.len() - 2]->ObjClass_0)) ==> final(self).raised == Some(ErrorKind::TypeError) && final(self).working_class_def == old(self).working_class_def
+    //@  ensures @inherited_methods_are_those_of_the_declared_superclass (old(self).stack[old(self).stack.len() - 2] is ObjClass && !native_class(old(self).stack[old(self).stack.len() - 2]->ObjClass_0)) ==> ({ let sup = old(self).stack[old(self).stack.len() - 2]->ObjClass_0; let t0 = old(self).working_class_def->0.class.methods.view; let t1 = final(self).working_class_def->0.class.methods.view; r is Ok && final(self).working_class_def is Some && final(self).working_class_def->0.class.superclass == Some(sup) && t1 =~= sup.obj().methods.view && final(self).stack == old(self).stack.drop_last() })
     //@  ensures @superclass_must_be_a_class !(old(self).stack[old(self).stack.len() - 2] is ObjClass) ==> final(self).raised == Some(ErrorKind::RuntimeError) && final(self).working_class_def == old(self).working_class_def
     //@end
     //@fn file=yarel/src/vm.rs path=Vm::define_method ret=r
